@@ -223,6 +223,10 @@ def r5_same_text(c, facts):
 
 
 def run(c, facts):
+    import c15
+    R6 = c.rule('C16.R6', 'SAME-VERSION: the spans and the text of a conversion belong to the same version of the document: every notification marks the trees stale, didOpen overwrites, didClose forgets (shared with C15.R1/R6)')
+    c.shared(R6, c15.r1_set_stale, 'C15.R1', facts)
+    c.shared(R6, c15.r6_doc_sync, 'C15.R6', facts)
     c.run(r5_same_text, facts)
     c.run(lambda c: run_units(c, facts))
     c.run(r3_clamp, facts)
